@@ -16,6 +16,7 @@ import (
 	"sync"
 
 	"github.com/risor-io/risor/arg"
+	"github.com/risor-io/risor/internal/verifhook"
 	"github.com/risor-io/risor/object"
 )
 
@@ -42,6 +43,7 @@ func init() {
 
 // RegisterCodec registers a new codec
 func RegisterCodec(name string, codec *Codec) error {
+	verifhook.Yield("reg.lock")
 	mutex.Lock()
 	defer mutex.Unlock()
 
@@ -54,6 +56,7 @@ func RegisterCodec(name string, codec *Codec) error {
 
 // GetCodec retrieves a codec by its name
 func GetCodec(name string) (*Codec, error) {
+	verifhook.Yield("reg.lock")
 	mutex.RLock()
 	defer mutex.RUnlock()
 
